@@ -478,12 +478,69 @@ def r06e(ctx):
         raise AnalysisError("R06e: no bulk setter loop found in row.py/table.py")
 
 
+def r06f(ctx):
+    """The number written to office:value is the number that was given.
+
+    `str()` of an int, a float or a Decimal is exact (Python prints the shortest string that reads back as the same float); what is not exact
+    is a detour through another numeric type or a format with a fixed precision: `int(float(v))` rounds integers beyond 2**53, `f"{v:f}"` /
+    `"%f" % v` keep six decimals, `round()` cuts.  Rule: in every function that writes `office:value`, the expressions the written string is
+    built from (backward def-use closure inside the function) contain no float()/Float() nested inside an int()/Decimal() conversion, no
+    format specification, no %-formatting with a numeric conversion, no round()/format().
+    """
+    repo = ctx.repo
+    ctx.rule("R06f", "the string written to office:value is an exact rendering of the number (no lossy numeric detour or fixed-precision format)", floor=5)
+    n = 0
+    for f in repo.all_funcs():
+        if f.kind == "nested":
+            continue
+        writes = [c for c in walk_no_nested(f.node) if isinstance(c, ast.Call) and call_name(c) == "set_attribute" and len(c.args) == 2
+                  and repo.fold(c.args[0], f.module, f.cls) in ("office:value", "calcext:value")]
+        if not writes:
+            continue
+        defs: dict[str, list[ast.expr]] = {}
+        for a in walk_no_nested(f.node):
+            if isinstance(a, ast.Assign) and len(a.targets) == 1 and isinstance(a.targets[0], ast.Name):
+                defs.setdefault(a.targets[0].id, []).append(a.value)
+        for w in writes:
+            n += 1
+            seen, work, exprs = set(), [w.args[1]], []
+            while work:
+                e = work.pop()
+                if id(e) in seen:
+                    continue
+                seen.add(id(e))
+                exprs.append(e)
+                for x in ast.walk(e):
+                    if isinstance(x, ast.Name):
+                        work.extend(defs.get(x.id, []))
+            bad = None
+            for e in exprs:
+                for x in ast.walk(e):
+                    if isinstance(x, ast.Call) and call_name(x) in ("int", "Decimal") and any(isinstance(y, ast.Call) and call_name(y) in ("float", "Float") for a_ in x.args for y in ast.walk(a_)):
+                        bad = (x, "an integer/decimal is converted through a binary float")
+                    elif isinstance(x, ast.FormattedValue) and x.format_spec is not None:
+                        bad = (x, "a format specification fixes the number of digits")
+                    elif isinstance(x, ast.BinOp) and isinstance(x.op, ast.Mod) and isinstance(x.left, ast.Constant) and isinstance(x.left.value, str) \
+                            and any(k in x.left.value for k in ("%f", "%e", "%g", "%.", "%d")):
+                        bad = (x, "%-formatting fixes the number of digits")
+                    elif isinstance(x, ast.Call) and isinstance(x.func, ast.Name) and x.func.id in ("round", "format"):
+                        bad = (x, f"{x.func.id}() changes the digits")
+            ctx.instance("R06f", f"{f.file}:{f.ident}", f"{norm(w, 50)}: " + ("exact rendering" if bad is None else bad[1]), ok=bad is None, nontrivial=True, line=w.lineno)
+            if bad is not None:
+                ctx.report("R06f", f, bad[0], f"{norm(bad[0], 50)} on the way to {norm(w, 40)}",
+                           f"{f.ident} writes office:value from `{norm(bad[0], 40)}`: {bad[1]}, so huge integers, tiny floats or long decimals are stored as another number "
+                           f"than the one given (and read back as that other number, by odfdo and by every other application)")
+    if n == 0:
+        raise AnalysisError("R06f: no writer of office:value found")
+
+
 def run(ctx):
     r06a(ctx)
     r06b(ctx)
     r06c(ctx)
     r06d(ctx)
     r06e(ctx)
+    r06f(ctx)
     # the lexical forms are produced by the codecs: their exactness is a necessary condition of this property too (rules shared with C18)
     from .c18 import r18a, r18b, r18d
     r18a(ctx)
@@ -495,6 +552,9 @@ from ..selftest import Seed, unparse_seed  # noqa: E402
 
 _ET = "src/odfdo/element_typed.py"
 SEEDS = [
+    Seed("small floats written with a fixed-precision format", "fault", _ET, "            value = str(value)\n        elif isinstance(value, datetime):",
+         "            value = f\"{value:f}\" if isinstance(value, float) else str(value)\n        elif isinstance(value, datetime):", "R06f"),
+    Seed("Cell.int setter converts through a float", "fault", "src/odfdo/cell.py", "            value_int = int(value)  # type:ignore", "            value_int = int(float(value))  # type:ignore", "R06f"),
     Seed("Row.set_values merges neighbours that compare equal in Python", "fault", "src/odfdo/row.py", '            cells = [\n                Cell(value, style=style, cell_type=cell_type, currency=currency)\n                for value in values\n            ]\n',
          """            cells = []
             for idx, value in enumerate(values):
